@@ -2,8 +2,9 @@
 use crate::alpha;
 use crate::conv::{big_to_limbs, limbs_to_big};
 use crate::infra::{guard, unrank, Ctx, Fail};
+use crate::shadow::exponent_shapes;
 use crate::refmodel::{hex, q, r};
-use ff::{Field, PrimeField, PrimeFieldRepr};
+use ff::{Field, PrimeField, PrimeFieldRepr, SqrtField};
 use num_bigint::BigUint;
 use num_traits::{One, Zero};
 use pairing_plus::bls12_381::{transmute, Fq, FqRepr, Fr, FrRepr};
@@ -469,6 +470,20 @@ pub fn run(ctx: &Ctx) -> (&'static str, &'static str) {
             transmute::fr(FrRepr([l[0], l[1], l[2], l[3]]))
         } },
     );
+    // concrete-type call forms (an inherent method would shadow the trait method the generic sweeps use)
+    {
+        let mut rng = ctx.rng("c08.shadow");
+        let iq = alpha::field_values(q(), 6, &mut rng, 8);
+        let eq: Vec<Fq> = iq.iter().step_by(3).map(|x| Fq::from_repr(repr_of::<FqRepr>(x)).unwrap()).collect();
+        let ir = alpha::field_values(r(), 4, &mut rng, 8);
+        let er: Vec<Fr> = ir.iter().step_by(3).map(|x| Fr::from_repr(repr_of::<FrRepr>(x)).unwrap()).collect();
+        let mut es = exponent_shapes();
+        es.extend(exps(q(), &mut rng).into_iter().step_by(5));
+        shadow_field!(ctx, "Fq", Fq, &eq, &es);
+        shadow_field!(ctx, "Fr", Fr, &er, &es);
+        shadow_sqrt!(ctx, "Fq", Fq, &eq);
+        shadow_sqrt!(ctx, "Fr", Fr, &er);
+    }
     ctx.assume("integers mod p are computed with num-bigint (%, modpow); the subject's arithmetic is derive-generated Montgomery code");
     (
         "exploration",
